@@ -511,15 +511,26 @@ def profile(binary, sc, driver, workers=2):
         pass
     return {s: max(c.values()) for s, c in per.items()}, (max(tot.values()) if tot else 0), o
 
-def kill_runs(binary, sc, driver, npoints, workers=2, tag="kill"):
-    """One run per kill point N: SIGKILL delivered at the N-th traced syscall of some thread."""
-    jobs = []
-    for n in npoints:
-        jobs.append(n)
-    def one(n):
-        o = run_one(binary, sc, driver, "%s-%s-%s-%d" % (tag, sc["id"], driver, n), workers=workers,
-                    strace={"trace": MUTATING, "inject": ["%s:signal=KILL:when=%d" % (MUTATING, n)]})
-        o["_run"]["point"] = n
+KILLABLE = ("rename", "ftruncate", "copy_file_range", "fchmod", "utimensat", "fchown", "fsetxattr", "fsync", "mkdir", "symlink", "mknodat", "unlink")
+
+def kill_points(counts, step=1):
+    """(syscall, n) for every per-thread occurrence of a mutating call (the main thread issues none of these while starting
+    up, so the kill really lands inside the copy: SIGKILL is delivered on entry to the n-th such call of a thread, i.e.
+    after everything before it and before the call itself)."""
+    pts = []
+    for sysc in KILLABLE:
+        for n in range(1, counts.get(sysc, 0) + 1, step):
+            pts.append((sysc, n))
+    return pts
+
+def kill_runs(binary, sc, driver, points, workers=2, tag="kill"):
+    """One run per kill point (syscall, n)."""
+    jobs = list(points)
+    def one(pt):
+        sysc, n = pt
+        o = run_one(binary, sc, driver, "%s-%s-%s-%s-%d" % (tag, sc["id"], driver, sysc, n), workers=workers,
+                    strace={"trace": MUTATING, "inject": ["%s:signal=KILL:when=%d" % (sysc, n)]})
+        o["_run"]["point"] = [sysc, n]
         try:
             os.unlink(o["_run"]["trace"])
         except OSError:
